@@ -415,4 +415,56 @@ theorem C18_rerun_runs (Y : YieldFn) (F : BodyFn) (ts : List PTask) (w : World) 
   rw [(reportChain_frame _ t _).2.2.2.2.1]
   exact hrp
 
+/-- **C18_consumer_sees_producer_output** (build level; combines `C18_resolve` and `C18_producer_first`). In every build
+the model accepts — collected tasks `ts`, any accepted pick list — every invocation `e` of a task function happened at
+one definite pick: after a prefix `pre` of the picks the loop was in state `sm` and handed out `e.task`, and
+* each pattern argument it received is the list of files matching the pattern in the world of `sm` (the task's setup
+  instant) — for an argument still unresolved then, which is every argument of a collected task (its record `C` is
+  untouched until its own pick) — and the body's own glob saw exactly the same lists;
+* every collected task `P` declaring one of these patterns as a product had completed its whole protocol before
+  (`P.id ∈ pre`), and the received list contains **every** file of the pattern's range that exists at that instant — in
+  particular every file `P` wrote in this build that still exists. -/
+theorem C18_consumer_sees_producer_output (Y : YieldFn) (F : BodyFn) (ts : List PTask) (w : World) (s0 s' : Prov.Sess)
+    (picks : List Nat) (h0 : initSess ts w = some s0) (h1 : loop Y F s0 picks = .ok s') (e : Recv) (he : e ∈ s'.recv) :
+    ∃ pre post sm tk, picks = pre ++ e.task :: post ∧ loop Y F s0 pre = .ok sm ∧ findTask sm.tasks e.task = some tk ∧
+      e.got = tk.pdeps.map (fun sl => sl.res.getD (sl.pat.glob sm.w.fs)) ∧
+      e.seen = tk.pdeps.map (fun sl => sl.pat.glob sm.w.fs) ∧
+      (∀ C, findTask ts e.task = some C → tk = C ∧
+        ∀ (P : PTask) (π : Pat), findTask ts P.id = some P → P.id ≠ e.task →
+          (⟨π, none⟩ : Slot) ∈ P.pprods → (⟨π, none⟩ : Slot) ∈ C.pdeps →
+          P.id ∈ pre ∧ π.glob sm.w.fs ∈ e.got ∧
+          ∀ n, π.lo ≤ n → n < π.lo + π.len → (lookup sm.w.fs n).isSome = true → n ∈ π.glob sm.w.fs) := by
+  have hempty := initSess_empty h0
+  rcases loop_recv picks s0 s' h1 e he with h | ⟨pre, t, post, sm, tk, hp, hl, hf, heq⟩
+  · rw [hempty.1] at h; cases h
+  · have het : e.task = t := by rw [heq]
+    have hgot : e.got = tk.pdeps.map (fun sl => sl.res.getD (sl.pat.glob sm.w.fs)) := by
+      rw [heq]; exact received_resolvedDeps _ _
+    have hseen : e.seen = tk.pdeps.map (fun sl => sl.pat.glob sm.w.fs) := by
+      rw [heq]; exact seenBy_resolvedDeps _ _ _
+    rw [het]
+    refine ⟨pre, post, sm, tk, hp, hl, hf, hgot, hseen, fun C hC => ?_⟩
+    have hnd : picks.Nodup := by simpa using loop_nodup picks s0 s' [] (initSess_inv h0) List.nodup_nil h1
+    have htn : t ∉ pre := by
+      rw [hp] at hnd
+      have := (List.nodup_append.1 hnd).2.2
+      intro hin
+      exact this t hin t (by simp) rfl
+    have hi : LInv ts sm ([] ++ pre) := loop_inv pre s0 sm [] (initSess_inv h0) hl
+    simp only [List.nil_append] at hi
+    have htk : tk = C := by
+      have := hi.untouched t C htn hC
+      rw [hf] at this; exact Option.some.inj this
+    refine ⟨htk, fun P π hP hne hπP hπC => ?_⟩
+    have hrest : loop Y F sm (t :: post) = .ok s' := by
+      rw [hp] at h1
+      obtain ⟨sm', ha, hb⟩ := loop_append pre (t :: post) s0 s' h1
+      rw [hl] at ha
+      rw [Except.ok.inj ha]; exact hb
+    refine ⟨C18_producer_first Y F ts w s0 sm s' pre t post h0 hl hrest P C hP hC hne π hπP hπC, ?_, ?_⟩
+    · rw [hgot, htk]
+      exact List.mem_map.2 ⟨⟨π, none⟩, hπC, rfl⟩
+    · intro n a b c
+      exact mem_glob.2 ⟨a, b, c⟩
+
 end Pytask
